@@ -58,6 +58,10 @@ CHECKS.update({
     'C20': dict(category='model_checking', text='TLC checks the route-table facts of EioRoute (a path escaping the mapped directory is never served; the engine is reached iff the path lies under the endpoint) over all cells; the real WSGIApp and ASGIApp are then exercised against a temporary directory tree with unique file contents and a secret outside every root: all request paths of <= 3 (quick) / 4 (thorough) segments over a 14-segment alphabet (endpoint, prefix-sharing name, mapped keys, files, ".", "..", empty, %2e%2e, sub-directory, missing) plus absolute-path and deep-traversal spellings of the secret, x 8 static mappings (directory with/without slash, file, root, default-file override, explicit content types, none) x endpoint spellings x wrapped app present/absent; each response is abstracted by a reference resolver (under endpoint / matches / exists / dot segments / escapes) and TLC validates outcome, file-beneath-root, content and content type against the table; ASGI lifespan: all event sequences of length <= 3 x 4 x 4 callback kinds x wrapped app, validated against LifeSends.', note=TABLE_NOTE, technique='TLA+ spec EioRoute: TLC over all cells + TLC validation of real WSGIApp / ASGIApp responses on a real directory tree', design_ref='6 (C20), 3.5', engine='tlc-table'),
 })
 
+CHECKS.update({
+    'C14': dict(category='model_checking', text='TLC checks on EioServerProps that refused bodies (oversize, undecodable, too many packets) produce no event and that an oversize POST ends the session, on polling, websocket and mid-upgrade models; the real servers are driven with size probes whose wire form is exactly limit-2 .. limit+2 (and 10x) bytes / characters, text and binary, as POST bodies, steady-state frames, first frames and probe-stage frames, for limits 30 .. 10^6 and the tiny limits 1..3, with declared length smaller / larger than the body and declared above the limit, packet counts 0..18 per body plain and form-encoded; every trace is validated by TLC against EioServer (an oversize input must take the OVERSIZE branch, an input of exactly the limit the ordinary one), and the recorded sizes asked of the WSGI body stream must never exceed the limit.', note=CORE_NOTE, technique='TLA+ spec EioServer (OVERSIZE / refused-body branches): TLC exhaustive + TLC trace validation of real executions with exact size probes', design_ref='6 (C14)', engine='tlc-trace'),
+})
+
 NOT_YET = 'check not built yet at this commit (construction order in DESIGN.md section 8)'
 
 
